@@ -24,6 +24,7 @@ from ._utility import public_module
 from ._core import (
     ScopedIter,
     awaitify as _awaitify,
+    close_all as _close_all,
     Sentinel,
     borrow as _borrow,
 )
@@ -176,8 +177,7 @@ class chain(AsyncIterator[T]):
                             yield item
         finally:
             # also release the iterators we did not get to, e.g. if an earlier one failed
-            for owned_iterator in owned_iterators:
-                await owned_iterator.aclose()
+            await _close_all(owned_iterators)
 
     def __init__(
         self, *iterables: AnyIterable[T], _iterables: AnyIterable[AnyIterable[T]] = ()
@@ -207,9 +207,7 @@ class chain(AsyncIterator[T]):
         return self._iterator.__anext__()
 
     async def aclose(self) -> None:
-        for iterable in self._owned_iterators:
-            await iterable.aclose()
-        await self._iterator.aclose()
+        await _close_all((*self._owned_iterators, self._iterator))
 
 
 async def compress(
@@ -569,10 +567,7 @@ async def zip_longest(
                     del value
             yield tuple(values)
     finally:
-        await fill_iter.aclose()  # type: ignore
-        for iterator in async_iters:
-            if isinstance(iterator, ACloseable):
-                await iterator.aclose()
+        await _close_all((fill_iter, *async_iters))
 
 
 async def identity(x: T) -> T:
